@@ -1005,6 +1005,14 @@ STUBS_DECODE = [
 ]
 
 
+# C07 prefix scenarios: the valid-class verdicts with an assertion in place of the assumption (model.rs)
+STUBS_PREFIX = STUBS_DECODE[:2] + [
+    "#[kani::stub(simdutf8::basic::from_utf8, crate::model::from_utf8_complete_stub)]",
+    "#[kani::stub(mqtt_proto_sync::TopicName::is_invalid, crate::model::topic_name_complete_stub)]",
+    "#[kani::stub(mqtt_proto_sync::TopicFilter::is_invalid, crate::model::topic_filter_complete_stub)]",
+]
+
+
 def stubs_for(bad):
     """Kani stub attributes of a decode scenario: the valid-class stubs, with the validator of the
     invalid-class field (marked by its length BAD_LEN = 3) swapped for the length-marked stub"""
@@ -1344,6 +1352,16 @@ def emit_agree(sh, tail=2, tail_bytes=None):
         '        vassert!(ca_code == cs, "C06|strict_rejects.async_differs|the strict decoder rejects (not a remaining-length mismatch) with an error the async decoder does not report");',
     ] + (['        vcover!(true, "all reject");'] if any((c[3] == "scalar") or (c[0] == "false" and c[2][0] != "InvalidRemainingLength") for c in b.cons) else []) + [
         "    }",
+    ] + ([
+        # C08 stated on its own, not through the strict decoder's verdict: a frame that satisfies every
+        # constraint of the specification, followed by bytes of the next packet, is returned as a packet by
+        # the async decoder having consumed exactly the frame (a decoder whose length bookkeeping is off reads
+        # into the next packet while the strict composition merely reports a length mismatch)
+        "    if %s {" % (" && ".join("(%s)" % c[0] for c in b.cons if c[0] != "true") or "true"),
+        '        vassert!(ca_code.0 == 0 && ca == %d, "C08|async.frame_exact|a valid frame followed by further bytes is not returned as a packet by the async decoder having consumed exactly the frame");' % L,
+        '        vassert!(cb.0 == 0, "C08|blocking.frame_exact|a valid frame followed by further bytes is not returned as a packet by the blocking decoder");',
+        "    }",
+    ] if not sh.malformed_by_shape and not b.nonminimal else []) + [
         "    if let Ok((total, ps)) = &rs {",
         '        vassert!(*total == %d, "C08|strict.total|reported total differs from the frame length");' % L,
     ]
